@@ -97,16 +97,18 @@ impl Monitor for Mon {
             }
             match u.state() {
                 State::Suspect => {
-                    let m = sim.max(u.incarnation());
-                    if m == u16::MAX {
-                        unrefutable = true;
-                        self.max_boundary = true;
-                        break;
-                    }
                     if u.incarnation() >= sim {
-                        sim = m + 1;
+                        if u.incarnation() == u16::MAX {
+                            unrefutable = true;
+                            self.max_boundary = true;
+                            break;
+                        }
+                        sim = u.incarnation() + 1;
                         qualifying.push(u.incarnation());
                     } else {
+                        if sim == u16::MAX {
+                            self.max_boundary = true;
+                        }
                         self.stale_suspicions += 1;
                     }
                 }
